@@ -8,7 +8,8 @@
 //! Observed: the seqs in each subscriber's SSE body.  Compared with (a) the model
 //! (`Model/Subscribe.v`, evaluated in Coq on the schedule of publish/record/subscribe/snapshot events
 //! that really happened) and (b) the independent oracle: received seqs = 0..n-1 once each, ascending,
-//! where n = number of frames of that stream in events.jsonl.
+//! where n = number of frames of that stream in events.jsonl; a subscriber that reads while the stream is
+//! produced must have, after each read, every frame published so far.
 use rv::provider::{sse_event, Scripted, ScriptedProvider, SSE_DONE};
 use rv::sched::Sched;
 use rv::*;
@@ -132,11 +133,14 @@ struct Case {
     /// thread kind only: number of `POST /threads/{id}/branch` calls made by the OTHER actor; each creates a new
     /// thread, i.e. publishes two frames of ANOTHER stream on the shared continuity channel
     others: usize,
+    /// each subscriber reads its body this many times WHILE the stream is being produced (scheduled like any other
+    /// step: point `c06.read`), and once more after everything ended
+    reads: usize,
 }
 /// actor id of the foreign producer (subscribers are 1..=4)
 const OTHER: usize = 9;
 fn case_json(c: &Case) -> serde_json::Value {
-    json!({"kind": c.kind.name(), "load": c.load.to_json(), "subs": c.subs, "sched": c.sched, "others": c.others})
+    json!({"kind": c.kind.name(), "load": c.load.to_json(), "subs": c.subs, "sched": c.sched, "others": c.others, "reads": c.reads})
 }
 fn case_from_json(v: &serde_json::Value) -> Option<Case> {
     let kind = match v.get("kind")?.as_str()? {
@@ -151,6 +155,7 @@ fn case_from_json(v: &serde_json::Value) -> Option<Case> {
         subs: v.get("subs")?.as_u64()? as usize,
         sched: v.get("sched")?.as_array()?.iter().filter_map(|x| x.as_u64().map(|y| y as usize)).collect(),
         others: v.get("others").and_then(|x| x.as_u64()).unwrap_or(0) as usize,
+        reads: v.get("reads").and_then(|x| x.as_u64()).unwrap_or(0) as usize,
     })
 }
 
@@ -163,6 +168,8 @@ enum Ev {
     Snap(usize),
     /// a frame of another stream was published on the same channel
     Oth,
+    /// subscriber i read everything that was pending (mid-run read)
+    Drain(usize),
 }
 
 #[derive(Debug, Default)]
@@ -171,6 +178,8 @@ struct Outcome {
     delivered: Vec<(u16, Vec<u64>)>,
     /// per subscriber: number of body frames whose session_id is not the stream's id
     foreign: Vec<u64>,
+    /// per subscriber: number of frames it had received after each mid-run read
+    marks: Vec<Vec<usize>>,
     /// seqs of the stream's frames in events.jsonl, file order
     truth: Vec<u64>,
     events: Vec<Ev>,
@@ -355,58 +364,67 @@ impl Ctl {
                 }
             }
         };
+        if en.iter().any(|(a, p)| *a == choice && *p == "c06.read") {
+            self.events.push(Ev::Drain(choice));
+        }
         self.prev = Some(choice);
         Some(choice)
     }
 }
 
-fn read_body(rt: &tokio::runtime::Runtime, resp: axum::response::Response, kind: Kind, last_seq: Option<u64>, stream_id: &str) -> (u16, Vec<u64>, u64) {
-    use http_body_util::BodyExt;
-    let status = resp.status().as_u16();
-    if status != 200 {
-        return (status, vec![], 0);
+/// incremental reader of one SSE body (a client that reads while the stream is being produced, and again at the end)
+struct Reader {
+    body: axum::body::Body,
+    buf: String,
+    seqs: Vec<u64>,
+    foreign: u64,
+    terminal: bool,
+}
+impl Reader {
+    fn new(resp: axum::response::Response) -> Reader {
+        Reader { body: resp.into_body(), buf: String::new(), seqs: vec![], foreign: 0, terminal: false }
     }
-    let mut body = resp.into_body();
-    let mut seqs = vec![];
-    let mut foreign = 0u64;
-    rt.block_on(async {
-        let mut buf = String::new();
-        let mut terminal = false;
-        loop {
-            // everything the producer published is already queued in the receiver: a short wait suffices
-            let wait = if terminal { 3 } else { 40 };
-            let fr = tokio::time::timeout(Duration::from_millis(wait), body.frame()).await;
-            let Ok(Some(Ok(frame))) = fr else { break };
-            let Ok(data) = frame.into_data() else { continue };
-            buf.push_str(&String::from_utf8_lossy(&data));
-            while let Some(i) = buf.find("\n\n") {
-                let msg: String = buf[..i].to_string();
-                buf = buf[i + 2..].to_string();
-                for line in msg.lines() {
-                    if let Some(d) = line.strip_prefix("data:") {
-                        if let Ok(v) = serde_json::from_str::<serde_json::Value>(d.trim()) {
-                            let sq = v.get("seq").and_then(|x| x.as_u64()).unwrap_or(u64::MAX);
-                            seqs.push(sq);
-                            if v.get("session_id").and_then(|x| x.as_str()) != Some(stream_id) {
-                                foreign += 1;
-                            }
-                            if Some(sq) == last_seq {
-                                terminal = true; // the producer is finished: nothing can follow the stream's last frame
-                            }
-                            let ty = v.get("type").and_then(|x| x.as_str()).unwrap_or("");
-                            let st = v.get("status").and_then(|x| x.as_str()).unwrap_or("");
-                            if (kind == Kind::Session && ty == "session_ended")
-                                || (kind == Kind::Task && ty == "tool_task_status" && matches!(st, "exited" | "failed" | "cancelled"))
-                            {
-                                terminal = true;
+    /// reads every frame that is available now.  Whatever was published or replayed is already queued in this
+    /// receiver / history iterator, so `frame()` is ready on its first poll (tokio's `timeout` polls the future before
+    /// it looks at the clock: a descheduled thread cannot turn an available frame into a timeout); the wait only
+    /// bounds how long we sit on an empty channel before concluding that nothing more is pending.
+    fn drain(&mut self, rt: &tokio::runtime::Runtime, idle_ms: u64, kind: Kind, last_seq: Option<u64>, stream_id: &str) {
+        use http_body_util::BodyExt;
+        rt.block_on(async {
+            loop {
+                let wait = if self.terminal { 3 } else { idle_ms };
+                let fr = tokio::time::timeout(Duration::from_millis(wait), self.body.frame()).await;
+                let Ok(Some(Ok(frame))) = fr else { break };
+                let Ok(data) = frame.into_data() else { continue };
+                self.buf.push_str(&String::from_utf8_lossy(&data));
+                while let Some(i) = self.buf.find("\n\n") {
+                    let msg: String = self.buf[..i].to_string();
+                    self.buf = self.buf[i + 2..].to_string();
+                    for line in msg.lines() {
+                        if let Some(d) = line.strip_prefix("data:") {
+                            if let Ok(v) = serde_json::from_str::<serde_json::Value>(d.trim()) {
+                                let sq = v.get("seq").and_then(|x| x.as_u64()).unwrap_or(u64::MAX);
+                                self.seqs.push(sq);
+                                if v.get("session_id").and_then(|x| x.as_str()) != Some(stream_id) {
+                                    self.foreign += 1;
+                                }
+                                if Some(sq) == last_seq {
+                                    self.terminal = true; // the producer is finished: nothing can follow the stream's last frame
+                                }
+                                let ty = v.get("type").and_then(|x| x.as_str()).unwrap_or("");
+                                let st = v.get("status").and_then(|x| x.as_str()).unwrap_or("");
+                                if (kind == Kind::Session && ty == "session_ended")
+                                    || (kind == Kind::Task && ty == "tool_task_status" && matches!(st, "exited" | "failed" | "cancelled"))
+                                {
+                                    self.terminal = true;
+                                }
                             }
                         }
                     }
                 }
             }
-        }
-    });
-    (status, seqs, foreign)
+        });
+    }
 }
 
 /// one real router over one store, reused for a bounded number of cases (a new session / task per
@@ -500,7 +518,7 @@ fn run_case(env: &mut Env, c: &Case) -> Outcome {
     out.pre_existing = c.kind == Kind::Thread;
     let sched = Sched::new();
     sched.install();
-    let (tx, rx) = std::sync::mpsc::channel::<(usize, tokio::runtime::Runtime, axum::response::Response)>();
+    let (tx, rx) = std::sync::mpsc::channel::<(usize, tokio::runtime::Runtime, u16, Option<Reader>, Vec<usize>)>();
     let producer_done = Arc::new(std::sync::atomic::AtomicBool::new(false));
 
     // ---- producer actor
@@ -603,6 +621,7 @@ fn run_case(env: &mut Env, c: &Case) -> Outcome {
         let sid = stream_id.clone();
         let kind = c.kind;
         let tx = tx.clone();
+        let reads = c.reads;
         sched.spawn(i, move || {
             let rt = new_rt();
             let id = sid.lock().unwrap().clone().unwrap_or_else(|| "none".into());
@@ -612,7 +631,20 @@ fn run_case(env: &mut Env, c: &Case) -> Outcome {
                 Kind::Thread => format!("/threads/{id}/events"),
             };
             let resp = rt.block_on(async { app.clone().oneshot(req("GET", &uri, None)).await.expect("infallible") });
-            let _ = tx.send((i, rt, resp));
+            let status = resp.status().as_u16();
+            let mut marks = vec![];
+            let reader = if status == 200 {
+                let mut rd = Reader::new(resp);
+                for _ in 0..reads {
+                    rip_kernel::verif::point("c06.read");
+                    rd.drain(&rt, 15, kind, None, &id);
+                    marks.push(rd.seqs.len());
+                }
+                Some(rd)
+            } else {
+                None
+            };
+            let _ = tx.send((i, rt, status, reader, marks));
         });
     }
     drop(tx);
@@ -644,15 +676,24 @@ fn run_case(env: &mut Env, c: &Case) -> Outcome {
     let id = stream_id.lock().unwrap().clone().unwrap_or_default();
     out.truth = stream_frames(&data, &id, c.kind == Kind::Thread).into_iter().map(|(s, _)| s).collect();
     let last = out.truth.last().cloned();
-    let mut got: BTreeMap<usize, (u16, Vec<u64>, u64)> = BTreeMap::new();
-    while let Ok((i, rt, resp)) = rx.recv_timeout(Duration::from_secs(5)) {
-        got.insert(i, read_body(&rt, resp, c.kind, last, &id));
+    let mut got: BTreeMap<usize, (u16, Vec<u64>, u64, Vec<usize>)> = BTreeMap::new();
+    while let Ok((i, rt, status, reader, marks)) = rx.recv_timeout(Duration::from_secs(5)) {
+        match reader {
+            Some(mut rd) => {
+                rd.drain(&rt, 40, c.kind, last, &id);
+                got.insert(i, (status, rd.seqs, rd.foreign, marks));
+            }
+            None => {
+                got.insert(i, (status, vec![], 0, marks));
+            }
+        }
         drop(rt);
     }
     for i in 1..=c.subs {
-        let (st, seqs, fo) = got.remove(&i).unwrap_or((0, vec![], 0));
+        let (st, seqs, fo, marks) = got.remove(&i).unwrap_or((0, vec![], 0, vec![]));
         out.delivered.push((st, seqs));
         out.foreign.push(fo);
+        out.marks.push(marks);
     }
     out
 }
@@ -706,6 +747,34 @@ fn oracle(c: &Case, o: &Outcome, cap: usize) -> Option<(String, String)> {
     for (i, fo) in o.foreign.iter().enumerate() {
         if *fo > 0 {
             return Some((format!("{} stream, subscriber {}: {} frame(s) of ANOTHER stream in the body (seqs {:?})", c.kind.name(), i + 1, fo, o.delivered[i].1), "foreign_frame_delivered".into()));
+        }
+    }
+    // mid-run reads: at the moment of its j-th read subscriber i must have received every frame published so far
+    // (the theorem's `published <= k`), frames that were in the stream before the case started included
+    {
+        let total_pubs = o.events.iter().filter(|e| **e == Ev::Pub).count();
+        let pre = o.truth.len().saturating_sub(total_pubs);
+        let mut pubs = 0usize;
+        let mut nth: BTreeMap<usize, usize> = BTreeMap::new();
+        if o.in_flight == 0 && !o.deadlock {
+            for e in &o.events {
+                match e {
+                    Ev::Pub => pubs += 1,
+                    Ev::Drain(i) => {
+                        let j = *nth.entry(*i).or_insert(0);
+                        nth.insert(*i, j + 1);
+                        if let Some(got) = o.marks.get(*i - 1).and_then(|m| m.get(j)) {
+                            if *got < pre + pubs {
+                                return Some((
+                                    format!("{} stream, subscriber {}: read #{} returned {} frames although {} had been published (and recorded) by then", c.kind.name(), i, j + 1, got, pre + pubs),
+                                    "published_frame_not_available_to_reader".into(),
+                                ));
+                            }
+                        }
+                    }
+                    _ => {}
+                }
+            }
         }
     }
     for (i, (st, seqs)) in o.delivered.iter().enumerate() {
@@ -769,6 +838,7 @@ fn coq_case(c: &Case, o: &Outcome) -> String {
         Ev::Pub | Ev::Rec => "AP".to_string(),
         Ev::Sub(i) | Ev::Snap(i) => format!("(AS {})", coq_nat(*i as u64 - 1)),
         Ev::Oth => "AO".to_string(),
+        Ev::Drain(i) => format!("(AS {})", coq_nat(*i as u64 - 1)),
     });
     let mut expect = vec![];
     for (st, seqs) in &o.delivered {
@@ -828,7 +898,7 @@ fn corpus(repo_root: &Path) -> Vec<Case> {
 
 /// the producer's point trace for a load (dry run without subscribers)
 fn producer_points(kind: Kind, load: &Load) -> Vec<&'static str> {
-    let c = Case { kind, load: load.clone(), subs: 0, sched: vec![], others: 0 };
+    let c = Case { kind, load: load.clone(), subs: 0, sched: vec![], others: 0, reads: 0 };
     let mut env = Env::new(&c);
     run_case(&mut env, &c).producer_trace
 }
@@ -836,7 +906,7 @@ fn producer_points(kind: Kind, load: &Load) -> Vec<&'static str> {
 fn main() {
     let a = parse_args();
     let mut res = RunResult::new("C06", &a);
-    res.rule = "case = (stream kind, load, number of subscribers, schedule prefix over {0 = producer, i = subscriber i, 9 = producer of ANOTHER thread on the shared continuity channel}); the schedule is forced on the real axum router through the rip_verif points (record/publish in the emitters and continuity appends incl. the file-system steps of log and sidecar, subscribe/snapshot in the handlers); enumeration per load: every pair (a, b) of relevant producer positions with a <= b (b at most 4 positions after a in quick, 7 in thorough, or the end of the run): the subscriber subscribes after a producer steps and snapshots after b; plus position 0 (before the stream starts) and after the run ended; plus seeded random interleavings of 2-4 concurrent subscribers; thread kind in addition: a foreign producer (POST /threads/{id}/branch) before the attach / between subscribe and snapshot / randomly interleaved; corpus first (S8 witnesses, the 18007-frame lag witness); non-trivial = the subscriber attaches strictly inside the run (after the first and before the last producer record/publish step)".into();
+    res.rule = "case = (stream kind, load, number of subscribers, schedule prefix over {0 = producer, i = subscriber i, 9 = producer of ANOTHER thread on the shared continuity channel}); the schedule is forced on the real axum router through the rip_verif points (record/publish in the emitters and continuity appends incl. the file-system steps of log and sidecar, subscribe/snapshot in the handlers); enumeration per load: every pair (a, b) of relevant producer positions with a <= b (b at most 4 positions after a in quick, 7 in thorough, or the end of the run): the subscriber subscribes after a producer steps and snapshots after b; plus position 0 (before the stream starts) and after the run ended; plus seeded random interleavings of 2-4 concurrent subscribers; plus fast consumers that read their body 1-6 times WHILE the stream is produced (point c06.read; each read must return every frame published so far); thread kind in addition: a foreign producer (POST /threads/{id}/branch) before the attach / between subscribe and snapshot / randomly interleaved; corpus first (S8 witnesses, the 18007-frame lag witness); non-trivial = the subscriber attaches strictly inside the run (after the first and before the last producer record/publish step)".into();
     let verif_root = std::env::current_exe().ok().and_then(|p| p.ancestors().nth(4).map(|x| x.to_path_buf())).unwrap_or_else(|| PathBuf::from("/verif"));
     let mut cases: Vec<Case> = vec![];
     if let Some(rp) = &a.replay {
@@ -901,7 +971,7 @@ fn main() {
                 s.push(1);
                 s.extend(vec![0; d]);
                 s.push(1);
-                cases.push(Case { kind: *kind, load: load.clone(), subs: 1, sched: s, others: 0 });
+                cases.push(Case { kind: *kind, load: load.clone(), subs: 1, sched: s, others: 0, reads: 0 });
             }
         }
         // several concurrent subscribers, random interleavings
@@ -913,7 +983,24 @@ fn main() {
             for _ in 0..len {
                 s.push(if r.chance(3, 5) { 0 } else { r.range(1, subs as u64) as usize });
             }
-            cases.push(Case { kind: *kind, load: load.clone(), subs, sched: s, others: 0 });
+            let reads = r.range(0, 3) as usize;
+            cases.push(Case { kind: *kind, load: load.clone(), subs, sched: s, others: 0, reads });
+        }
+        // a client that keeps reading while the stream is produced: attach at position a, then read after every
+        // `stride` producer steps
+        for (ia, a_) in pos.iter().enumerate() {
+            if !thorough && ia % 3 != 0 {
+                continue;
+            }
+            let stride = 1 + (ia % 4);
+            let mut s = vec![0; *a_];
+            s.extend([1, 1]);
+            let reads = 6;
+            for _ in 0..reads {
+                s.extend(vec![0; stride]);
+                s.push(1);
+            }
+            cases.push(Case { kind: *kind, load: load.clone(), subs: 1, sched: s, others: 0, reads });
         }
         // thread kind: another thread's producer publishes on the shared continuity channel (the handler must drop
         // those frames; they sit in the receiver between the frames of this thread)
@@ -925,7 +1012,7 @@ fn main() {
                 s.push(1);
                 s.extend(vec![OTHER; 80]);
                 s.push(1);
-                cases.push(Case { kind: *kind, load: load.clone(), subs: 1, sched: s, others: 1 });
+                cases.push(Case { kind: *kind, load: load.clone(), subs: 1, sched: s, others: 1, reads: 0 });
                 // one foreign thread before the attach, one inside the window, then the producer moves on before the snapshot
                 let mut s = vec![OTHER; 30];
                 s.extend(vec![0; *a_]);
@@ -933,7 +1020,7 @@ fn main() {
                 s.extend(vec![OTHER; 80]);
                 s.extend(vec![0; 5]);
                 s.push(1);
-                cases.push(Case { kind: *kind, load: load.clone(), subs: 1, sched: s, others: 2 });
+                cases.push(Case { kind: *kind, load: load.clone(), subs: 1, sched: s, others: 2, reads: 1 });
             }
             for _ in 0..n_multi {
                 let subs = r.range(1, 3) as usize;
@@ -946,7 +1033,7 @@ fn main() {
                         _ => r.range(1, subs as u64) as usize,
                     });
                 }
-                cases.push(Case { kind: *kind, load: load.clone(), subs, sched: s, others: r.range(1, 2) as usize });
+                cases.push(Case { kind: *kind, load: load.clone(), subs, sched: s, others: r.range(1, 2) as usize, reads: r.range(0, 2) as usize });
             }
         }
     }
@@ -976,6 +1063,9 @@ fn main() {
         if c.others > 0 {
             res.bump(&format!("foreign_producer_calls={}", c.others));
         }
+        if c.reads > 0 {
+            res.bump("reads_while_producing");
+        }
         let o = match got {
             Err(_) => {
                 Sched::uninstall();
@@ -988,7 +1078,7 @@ fn main() {
         };
         res.oracle_checks += 1;
         if a.extra.contains_key("debug") {
-            eprintln!("case {i} {} {} subs={} sched={:?}\n   events={:?}\n   delivered={:?} truth={:?} in_flight={} deadlock={} ppoints={}", c.kind.name(), c.load.label(), c.subs, c.sched, o.events, o.delivered, o.truth, o.in_flight, o.deadlock, o.producer_trace.len());
+            eprintln!("case {i} {} {} subs={} sched={:?}\n   events={:?}\n   delivered={:?} marks={:?} truth={:?} in_flight={} deadlock={} ppoints={}", c.kind.name(), c.load.label(), c.subs, c.sched, o.events, o.delivered, o.marks, o.truth, o.in_flight, o.deadlock, o.producer_trace.len());
         }
         res.bump(&format!("frames={}", match o.truth.len() { 0..=3 => "1-3", 4..=6 => "4-6", 7..=12 => "7-12", _ => "13+" }));
         if o.in_flight > 0 || o.deadlock {
